@@ -91,7 +91,27 @@ P7 = {   # modules in sub-directories: an import is relative to the module that 
     ],
     "nonident": [("lib/a.oal", 1, 10)],
 }
-PROGRAMS = {"modules-in-sub-directories": P7, "unqualified-import": P5, "nested-same-name-binders": P6, "single-module": P1, "two-modules": P2, "shadowing-and-reference": P3, "sibling-modules-same-shape": P4}
+P8 = {   # one name, three roles: import qualifier, declaration, parameter - renaming one must not touch the others
+    "files": {"main.oal": 'use "lib.oal" as t;\nlet t = { \'id t.ident, \'label t.label };\nlet f t = { \'v t };\nres /things on get -> <t> :: <status=404, f num>;\n',
+              "lib.oal": 'let ident = int;\nlet label = str;\n'},
+    "occ": [
+        ('main.oal', 0, 17, 't', 'qdecl', 'qt'),
+        ('main.oal', 1, 4, 't', 'decl', 'dt'),
+        ('main.oal', 1, 14, 't', 'quse', 'qt'),
+        ('main.oal', 1, 16, 'ident', 'use', 'lib.ident'),
+        ('main.oal', 1, 30, 't', 'quse', 'qt'),
+        ('main.oal', 1, 32, 'label', 'use', 'lib.label'),
+        ('main.oal', 2, 4, 'f', 'decl', 'f'),
+        ('main.oal', 2, 6, 't', 'binder', 'pt'),
+        ('main.oal', 2, 15, 't', 'use', 'pt'),
+        ('main.oal', 3, 23, 't', 'use', 'dt'),
+        ('main.oal', 3, 42, 'f', 'use', 'f'),
+        ('lib.oal', 0, 4, 'ident', 'decl', 'lib.ident'),
+        ('lib.oal', 1, 4, 'label', 'decl', 'lib.label'),
+    ],
+    "nonident": [("main.oal", 1, 8)],
+}
+PROGRAMS = {"one-name-three-roles": P8, "modules-in-sub-directories": P7, "unqualified-import": P5, "nested-same-name-binders": P6, "single-module": P1, "two-modules": P2, "shadowing-and-reference": P3, "sibling-modules-same-shape": P4}
 
 
 def relname(uri, root):
